@@ -31,11 +31,7 @@ def load_source(repo, sig):
 def translate(sigpath, repo):
     sig = json.load(open(sigpath))
     path, text = load_source(repo, sig)
-    if sig.get('mode') == 'kernel':
-        from kernel import KernelModule
-        m = KernelModule(sigpath, text, os.path.basename(sig['source']))
-    else:
-        m = Module(sigpath, text, os.path.basename(sig['source']))
+    m = Module(sigpath, text, os.path.basename(sig['source']))
     out = m.translate()
     return sig, out, hashlib.sha256(open(path, 'rb').read()).hexdigest()
 
